@@ -56,6 +56,7 @@ func (s *Server) cmdFollow(msg *Message) (res resp.Value, err error) {
 			defer conn.Close()
 			if auth != "" {
 				if err := s.followDoLeaderAuth(conn, auth); err != nil {
+					s.mu.Lock()
 					return NOMessage, fmt.Errorf("cannot follow: %v", err)
 				}
 			}
